@@ -356,6 +356,13 @@ Definition reserved_attr (k : string) : bool :=
   existsb (String.eqb k) ["values"; "child"; "to_mir"; "new"; "retrieve_inner_type"; "class_to_mir";
                           "is_scalar"; "is_literal"; "left_type"; "right_type"; "contained_type"].
 
+Definition is_primitive_integer (t : mty) : bool :=
+  match t with
+  | TyName n => existsb (String.eqb n) ["Integer"; "PublicInteger"; "SecretInteger"; "UnsignedInteger";
+                                        "PublicUnsignedInteger"; "SecretUnsignedInteger"]
+  | _ => false
+  end.
+
 Definition elt_class (d : td) : res sty :=    (* contained_type if isclass else contained_type.__class__, then called *)
   match d with
   | DCls t => Ok t
@@ -386,7 +393,17 @@ Definition eval_rhs (ρ : env) (r : rhs) : M wrap :=
       match ws with
       | [] => fail "ValueError"
       | first :: _ =>
-          if forallb (fun w => String.eqb (py_class w) (py_class first)) ws then
+          (* all(isinstance(arg, type(first_arg)) and arg.to_mir() == first_arg.to_mir() for arg in args) *)
+          mdo same <- (fix go (l : list wrap) : M bool :=
+                         match l with
+                         | [] => ret true
+                         | w :: r =>
+                             if String.eqb (py_class w) (py_class first) then
+                               mdo t <- lift (to_mir w); mdo t0 <- lift (to_mir first);
+                               if mty_eqb t t0 then go r else ret false
+                             else ret false
+                         end) ws;
+          if same then
             mdo id <- alloc;
             mdo ids <- need_ids ws;
             let w := WArray (DInst first) (Some (Z.of_nat (List.length ws))) (Some id) in
@@ -424,16 +441,13 @@ Definition eval_rhs (ρ : env) (r : rhs) : M wrap :=
       match x with
       | WNTuple vals _ =>
           let n := Z.of_nat (List.length vals) in
-          if n <=? i then fail "IndexError"
+          if (i <? 0) || (n <=? i) then fail "IndexError"
           else
             mdo id <- alloc;
-            if i <? - n then fail "IndexError"
-            else
-              let j := if i <? 0 then n + i else i in
-              match nth_wrap vals (Z.to_nat j) with
-              | Some v => mdo src <- need_id x; generate_accessor v id (ANTupleAcc i src)
-              | None => fail "IndexError"
-              end
+            match nth_wrap vals (Z.to_nat i) with
+            | Some v => mdo src <- need_id x; generate_accessor v id (ANTupleAcc i src)
+            | None => fail "IndexError"
+            end
       | _ => fail "TypeError"
       end
   | RField a k =>
@@ -510,9 +524,11 @@ Definition eval_rhs (ρ : env) (r : rhs) : M wrap :=
       | WArray ex sx _, WArray ey sy _ =>
           if negb (size_eqb sx sy) then fail "IncompatibleTypesError"
           else
-            (* is_primitive_integer(...) returns a 1-tuple: always true; retrieve_inner_type is
-               still evaluated on both arrays *)
-            mdo _ <- lift (inner_mir ex); mdo _ <- lift (inner_mir ey);
+            (* is_primitive_integer(self.retrieve_inner_type()) and is_primitive_integer(other...) *)
+            mdo tx <- lift (inner_mir ex);
+            mdo okx <- ret (is_primitive_integer tx);
+            mdo oky <- (if okx then mdo ty <- lift (inner_mir ey); ret (is_primitive_integer ty) else ret false);
+            if negb (okx && oky) then fail "InvalidTypeError" else
             mdo id <- alloc;
             mdo t <- lift (elt_class ex);
             mdo l <- need_id x; mdo r <- need_id y;
